@@ -614,6 +614,13 @@ func C08(tier string) *engine.Report {
 	sp := smSpec(depth)
 	sp.Until = deadline
 	tot.Add(sp.Name, sp.Run(), rep)
+	// "exactly one Pong per Ping", "nothing after the Close" across a re-handshake on the same Stream: what an earlier
+	// session queued and never wrote must not reach the next session's peer (the handshake driver's resumed-session family)
+	rres := c18ResumedDFS(tier).Run()
+	for _, v := range rres.Violations {
+		rep.Add(v)
+	}
+	rep.Coverage["resumed_sessions"] = map[string]any{"config": rres.Name, "executions": rres.Executions, "finished": rres.Exhaustive, "violations": len(rres.Violations)}
 	// every status code a peer's Close can carry, from the open state (E1, no deviations: a flat table)
 	cres := c08CloseCodeDFS(tier).Run()
 	for _, v := range cres.Violations {
@@ -627,6 +634,9 @@ func C08(tier string) *engine.Report {
 }
 
 func C08Replay(v engine.Violation, log func(string)) *engine.Violation {
+	if strings.HasPrefix(v.Config, "resumed-session@") {
+		return c18ResumedDFS(v.Config[16:]).ReplayChoices(v.Choices)
+	}
 	if strings.HasPrefix(v.Config, "close-codes@") {
 		return c08CloseCodeDFS(v.Config[len("close-codes@"):]).ReplayChoices(v.Choices)
 	}
